@@ -2,7 +2,25 @@
 HOOK_COMMITS = []
 NOT_APPLICABLE = {}
 
+_TB = "Trusted: Lean 4.33 kernel; axioms propext/Classical.choice/Quot.sound only; Lean compiler+runtime for the compiled driver; the Rust harness, canonical export and bin/check. "
+
 PROPS = {
+    "C01": {
+        "lean_modules": ["DelaunayModel.Props.C01", "DelaunayModel.Props.C04"],
+        "required_theorems": ["DM.C01.build_ok_gated", "DM.C01.certify_sound", "DM.C01.bruteDT_mem",
+                              "DM.C04.emptySphere_iff", "DM.C04.k2_both_positive"],
+        "level_text": "Theorem build_ok_gated (Lean kernel): for EVERY insertion behaviour, retry policy, attempt count, build profile and vertex order, the construction pipeline returns Ok only for a candidate that passed the completion validation its guarantee demands and a Level-4 check; certify_sound / emptySphere_iff / bruteDT_mem give the per-run certificate a proved meaning. Correspondence (K3): every Ok returned by the real constructors (4 APIs, both kernels, 3 guarantees, all option combinations sampled, D=2..5, degenerate families) is exported through the public API and judged by the exact-integer oracle: L1-L3 recomputed, no vertex strictly inside any circumsphere beyond the tolerance band, convex boundary, vertex provenance/bit-identity (or documented perturbation), inserted count, and in general position equality with the brute-force Delaunay cell set.",
+        "level_note": _TB + "Modelled not verified: cavity insertion / hull extension / local repair are a parameter of the pipeline model (their outputs are judged per run); the local-to-global Delaunay lemma and 'L1-L3 + positive orientation => cells tile the hull' are not proved; IEEE arithmetic is outside the model (violations inside tolerance+rounding band are not counted).",
+        "technique": "Lean 4 proof of the construction gate structure over an arbitrary insertion function + exact-arithmetic certificate (Lean, proved meaning) applied to every real constructor output",
+    },
+    "C04": {
+        "lean_modules": ["DelaunayModel.Props.C04"],
+        "required_theorems": ["DM.C04.emptySphere_iff", "DM.C04.k2_symmetric", "DM.C04.k2_both_positive",
+                              "DM.C04.filtered_k2_never_fires", "DM.C04.unfiltered_k2_iff", "DM.C04.f1_witness"],
+        "level_text": "Theorems (Lean kernel): the brute-force empty-sphere check equals its declarative statement; for two cells sharing a facet the two normalised in-sphere signs are equal (via the determinant bridge to Mathlib), hence a genuine violation shows both signs positive, the pinned 'both-positive' filter makes the k=2 predicate vacuous (filtered_k2_never_fires, f1_witness) and the repaired predicate is exact (unfiltered_k2_iff). Correspondence (K1/K3): is_valid / validate / validation_report / is_delaunay_via_flips / find_delaunay_violations of the real code are compared with the exact empty-sphere oracle on constructed triangulations, triangulations pushed away from Delaunay by random legal flips, and after removals, D=2..5, both kernels; accepting a strict violation or rejecting an exactly-Delaunay general-position triangulation is a failure.",
+        "level_note": _TB + "Not proved: all local flip predicates pass => globally Delaunay (Delaunay lemma; tied by correspondence only). Violations inside the predicates' tolerance band + LU rounding allowance are not judged.",
+        "technique": "Lean 4 proof (determinant algebra, exact brute-force spec) + exact-oracle differential check of every Delaunay verdict of the real code",
+    },
     "C12": {
         "lean_modules": ["DelaunayModel.Props.C12"],
         "level_text": "Theorems (Lean kernel): the dead-band classifier returns the exact sign whenever the exact determinant is separated from the band by more than the rounding allowance, returns 0 on exact zero when the allowance is inside the band, and two evaluations never disagree there; the exact signs' permutation laws come from the determinant bridge to Mathlib. Correspondence (K1): both kernels and all three in-sphere formulations are run on exhaustive tiny grids and random well-conditioned tuples and compared with the exact integer determinant sign computed by the Lean model.",
